@@ -57,17 +57,17 @@ L_K2_COPYEDIT = {"k": 2, "maxtok": 2, "maxtok0": 1, "mintok1": 2, "tokmask": 1, 
 L_IDX = {"k": 1, "kmask0": 63, "maxtok": 2, "mintok0": 1, "tokmask": 2, "shapemask": 432, "nvals": 2}
 L_LIMIT = {"k": 2, "kmask0": 16, "kmask1": 16, "maxtok": 1, "tokmask": 1, "shapemask": 40960, "nvals": 2, "limit": 1}
 L_LIMIT1 = {"k": 1, "kmask0": 16, "maxtok": 2, "tokmask": 1, "shapemask": 57344, "nvals": 2, "limit": 1}
-MERGE_Q = [{"docm": 2, "docvals": 6, "patchm": 2, "patchvals": 12}, {"docm": 1, "docvals": 2, "patchm": 3, "patchvals": 2}, {"docm": 2, "docvals": 2, "patchm": 2, "patchvals": 6, "emptynames": 1}]
-MERGE_BOUND = ("documents: objects of <= docm members a,b with values from W (number, string, {k:n}, {k:{j:n}}, [n], null) plus array/number/string roots; "
+MERGE_Q = [{"docm": 2, "docvals": 7, "patchm": 2, "patchvals": 13}, {"docm": 1, "docvals": 2, "patchm": 3, "patchvals": 2}, {"docm": 2, "docvals": 2, "patchm": 2, "patchvals": 6, "emptynames": 1}]
+MERGE_BOUND = ("documents: objects of <= docm members a,b with values from W (number, string, {k:n}, {k:{j:n}}, [n], null, escape-alphabet string) plus array/number/string roots; "
                "patches: objects of <= patchm members named by one symbolic letter a..d with values from V (null, number, string, {}, {k:null}, {k:n}, {k:{j:null}}, [], [null], [{k:null}]) "
-               "(+ {k:null,j:null,i:n}, {k:null,j:{i:null,h:n},g:n}) or one of 7 non-object patches; leaves symbolic; with emptynames=1 member names may also be the empty string")
-MM_Q = [{"docm": 1, "docvals": 4, "patchm": 1, "patchvals": 12, "nonobjdocs": 1}, {"docm": 1, "docvals": 3, "patchm": 2, "patchvals": 6, "nonobjdocs": 0}, {"docm": 2, "docvals": 2, "patchm": 1, "patchvals": 6, "nonobjdocs": 0, "emptynames": 1}]
+               "(+ {k:null,j:null,i:n}, {k:null,j:{i:null,h:n},g:n}, escape-alphabet string: symbolic plain byte / raw U+2028 / \\f / \\b) or one of 7 non-object patches; leaves symbolic; with emptynames=1 member names may also be the empty string")
+MM_Q = [{"docm": 1, "docvals": 4, "patchm": 1, "patchvals": 13, "nonobjdocs": 1}, {"docm": 1, "docvals": 3, "patchm": 2, "patchvals": 6, "nonobjdocs": 0}, {"docm": 2, "docvals": 2, "patchm": 1, "patchvals": 6, "nonobjdocs": 0, "emptynames": 1}]
 MM_BOUND = ("triples (D,P1,P2): D object of <= docm members (values from W) or array/number/string root; P1 object patch, P2 object patch or one of 7 non-object patches, "
             "<= patchm members each with one-letter symbolic names a..d and values from the first patchvals entries of V; incompatible pairs skipped as outside the property")
 CREATE_BOUND = ("A, B objects of <= m members, one-letter symbolic names a..d, values chosen by the mask 'vals' from 16 shapes: number, string, {k:n}, {k:n,j:n}, [n], {}, true, null, "
-                "[{k:n,j:n}], [{k:n}], [n,n], [[{k:n,j:n}]], [[{k:n}]], [{k:{i:n,j:n}}], [{k:{i:n}}], [{k:null}]; leaves symbolic")
-EQ_Q = [{"nshapes": 20, "modes": 15, "containers": 0}]
-EQ_BOUND = ("pairs of 20 value shapes (<= 4 nodes, depth <= 2, all six root kinds incl. null, [null], {k:null}); member names one symbolic letter a..d, leaves symbolic; "
+                "[{k:n,j:n}], [{k:n}], [n,n], [[{k:n,j:n}]], [[{k:n}]], [{k:{i:n,j:n}}], [{k:{i:n}}], [{k:null}], escape-alphabet string, [escape-alphabet string]; leaves symbolic")
+EQ_Q = [{"nshapes": 22, "modes": 15, "containers": 0}]
+EQ_BOUND = ("pairs of 22 value shapes (<= 4 nodes, depth <= 2, all six root kinds incl. null, [null], {k:null}, escape-alphabet strings); member names one symbolic letter a..d, leaves symbolic; "
             "second text independent, \\u00XX-respelled, member-reversed, or padded with symbolic whitespace bytes at every structural position")
 
 R = {}
@@ -79,7 +79,7 @@ R["C02"] = {"harnesses": [H("H_Merge", MERGE_Q, None, ["merge/end", "merge/objec
             "assumptions": ["member names distinct within an object"],
             "outside_bound": ["documents and patches outside the listed families (more members, deeper nesting)"]}
 R["C03"] = {"harnesses": [
-    H("H_Create", [{"m": 2, "vals": 63}, {"m": 1, "vals": 65296}], [{"m": 2, "vals": 255}, {"m": 1, "vals": 65535}, {"m": 2, "vals": 65296}],
+    H("H_Create", [{"m": 2, "vals": 63}, {"m": 1, "vals": 261904}, {"m": 2, "vals": 65539}], [{"m": 2, "vals": 255}, {"m": 1, "vals": 262143}, {"m": 2, "vals": 65296}, {"m": 2, "vals": 196611}],
       ["create/end", "create/no-null-target"], CREATE_BOUND),
     H("H_CreateArr", [{"vals": 31}], None, ["createarr/end", "createarr/rejected"], "arrays of 0..2 objects of <= 1 member each (first five value shapes)"),
     H("H_CreateReject", [{}], None, ["createreject/accepted", "createreject/rejected"], "all 49 pairs of 7 root kinds")],
@@ -149,7 +149,8 @@ C12_K2_MIX = {"k": 2, "kmask0": 63, "kmask1": 16, "maxtok": 1, "tokmask": 1, "sh
 C12_PKG = {"k": 1, "kmask0": 16, "maxtok": 1, "tokmask": 1, "shapemask": 40960, "nvals": 2, "optmask": 20}
 C12_K3 = {"k": 3, "kmask0": 16, "kmask1": 16, "kmask2": 16, "maxtok": 1, "tokmask": 32, "shapemask": HTML_SHAPES, "nvals": 2, "optmask": 12}
 C12_K2_ALL = {"k": 2, "kmask0": 16, "kmask1": 16, "maxtok": 2, "tokmask": 1, "shapemask": HTML_SHAPES, "nvals": 2, "optmask": 12}
-R["C12"] = {"harnesses": [H("H_Apply", [C12_K1, C12_K2, C12_PKG], [C12_K1, C12_K2_ALL, C12_K2_MIX, C12_K3, C12_PKG], ["apply/copy-limit-hit", "apply/end"],
+R["C12"] = {"harnesses": [H("H_Options_Reuse", [{}], None, ["reuse/end", "reuse/limit-hit"], "one ApplyOptions value reused: a first call (copy + failing test / copy + missing path / three copies / one copy) then 1-2 copies with the same options, limit = any int64, EscapeHTML on/off: the second call behaves as with fresh options"),
+    H("H_Apply", [C12_K1, C12_K2, C12_PKG], [C12_K1, C12_K2_ALL, C12_K2_MIX, C12_K3, C12_PKG], ["apply/copy-limit-hit", "apply/end"],
     "documents with strings of 1-2 symbolic bytes over printable ASCII (so <, >, & make the escaped length vary per path); K copy operations (optionally one other operation first) with pointers of <= maxtok one-byte symbolic tokens; "
     "AccumulatedCopySizeLimit = any int64 (one symbolic variable: 0, negative, total-1, total, total+1, MaxInt64 all decided in the same query); EscapeHTML on/off; SupportNegativeIndices symbolic")],
     "anchors": ["(github.com/evanphx/json-patch/v5.Patch).copy", "v5.deepCopy", "v5.NewApplyOptions"],
@@ -179,6 +180,7 @@ R["C14"] = {"harnesses": [H("H_Apply", [C14_K1], [C14_K1_ALL, C14_K2], ["apply/e
     "assumptions": ["outside (property): null or scalar on the path, negative indices, '-' other than last; don't-care (DESIGN appendix A): existing array shorter than the LAST token's index"],
     "outside_bound": ["paths longer than 3 tokens, indices above 9"]}
 R["C05"] = {"harnesses": apply_harnesses() + [H("H_Merge", MERGE_Q, None, ["merge/object-patch"], MERGE_BOUND),
+    H("H_Escape", [{"natoms": 1, "atommask": 65535}], None, ["escape/end"], "escape-alphabet strings (16 atoms) in untouched values and member names: strings keep their value through Apply"),
     H("H_Apply", [{"k": 0, "maxtok": 1, "tokmask": 1, "shapemask": 262143, "nvals": 2}, {"k": 1, "maxtok": 2, "tokmask": 1, "shapemask": 196608, "nvals": 2, "kmask0": 63}],
       [{"k": 0, "maxtok": 1, "tokmask": 1, "shapemask": 262143, "nvals": 2}, {"k": 2, "maxtok": 1, "tokmask": 1, "shapemask": 196608, "nvals": 2, "kmask0": 63, "kmask1": 63}], ["apply/end"],
       "literal family: the empty patch on all 18 document shapes, and K operations on two documents whose numbers are the templates d.d, -0, a 23-digit integer with three symbolic digits, 1e400, -d, dEdd with members in non-sorted order: output compared ordered and literal-exact with the reference")],
@@ -195,6 +197,7 @@ R["C08"] = {"harnesses": apply_harnesses(extra_quick=[C12_K1, C08_K1_OPTS], extr
 R["C11"] = {"harnesses": [
     H("H_DecodePatch", [{"elements": 1, "pad": 1}], [{"elements": 1, "pad": 1}, {"elements": 2, "pad": 0, "fixed": 0}, {"elements": 2, "pad": 0, "fixed": 1}], ["decode/accepted", "decode/rejected", "decode/end"],
       "patch texts assembled member by member: root kind (array of operations / array with a non-object element / non-array root / empty array), and for each of op, path, from, value: absent, null, string, number, object, array or present under a case-renamed key; optional extra member, optional duplicated path; the op string is one of the six names or 3/4/6 symbolic letters (any case); one symbolic whitespace byte before and after; accessors compared with the generating members"),
+    H("H_DecodePatch_Template", [{"k": 1}], [{"k": 1}, {"k": 2}], ["decode/template/malformed", "decode/template/whitespace", "decode/template/end"], "3 valid patch documents (37-66 bytes) with k unconstrained bytes inserted at every position: rejected when no longer well-formed JSON, accepted when the insertion is insignificant whitespace"),
     H("H_Bytes_Decode", ns(0, 4), ns(0, 6), ["bytes/decode/malformed", "bytes/decode/wellformed"], "every byte string of n bytes: malformed, non-array roots and non-object elements rejected; the empty array accepted with any whitespace")],
     "anchors": ["v5.DecodePatch", "v5.validateOperation", "v5.validatePatch", "(github.com/evanphx/json-patch/v5.Operation).Kind", "(github.com/evanphx/json-patch/v5.Operation).Path", "(github.com/evanphx/json-patch/v5.Operation).From", "(github.com/evanphx/json-patch/v5.Operation).ValueInterface"],
     "assumptions": ["the JSON text null (decodes to an empty patch) is outside the stated domain", "duplicated members are asserted only when both copies fall in the same accept/reject class (here: path duplicated with the same string)"],
@@ -203,8 +206,8 @@ R["C11"] = {"harnesses": [
 TN_ESC = {"escdocs": 1, "atommask": 1025, "kmask0": 17, "maxtok": 1, "tokmask": 33, "nvals": 2, "shapemask": 0}
 TN_PLAIN = {"escdocs": 0, "atommask": 0, "kmask0": 63, "maxtok": 1, "tokmask": 1, "nvals": 2, "shapemask": 8218}
 R["C15"] = {"harnesses": [
-    H("H_Escape", [{"natoms": 1, "atommask": 2047}], [{"natoms": 1, "atommask": 2047}, {"natoms": 2, "atommask": 1343}], ["escape/on", "escape/off", "escape/end"],
-      "4 document shapes carrying strings (values and member names, top level, nested, inside arrays) of natoms atoms from the escape alphabet: any printable ASCII byte (symbolic: covers <, >, &), escaped quote, escaped backslash, \\u001f, raw U+2028, raw U+2029, \\u2028, raw non-BMP, lone-surrogate escape, \\n, \\u003c; 6 patches (empty, add elsewhere, copy/move of the string, add of a value carrying such a string, copy of the whole document); EscapeHTML on/off; indent of 1-2 bytes from space/tab"),
+    H("H_Escape", [{"natoms": 1, "atommask": 65535}], [{"natoms": 1, "atommask": 65535}, {"natoms": 2, "atommask": 3391}], ["escape/on", "escape/off", "escape/end"],
+      "4 document shapes carrying strings (values and member names, top level, nested, inside arrays) of natoms atoms from the escape alphabet: any printable ASCII byte (symbolic: covers <, >, &), escaped quote, escaped backslash, \\u001f, raw U+2028, raw U+2029, \\u2028, raw non-BMP, lone-surrogate escape, \\n, \\u003c, \\f, \\b, \\t, \\r, \\/; 6 patches (empty, add elsewhere, copy/move of the string, add of a value carrying such a string, copy of the whole document); EscapeHTML on/off; indent of 1-2 bytes from space/tab"),
     H("H_TestNeutral", [TN_ESC, TN_PLAIN], [dict(TN_ESC, atommask=2047, kmask0=63, maxtok=2), dict(TN_PLAIN, maxtok=2, shapemask=8191)], ["testneutral/end"],
       "one operation plus one PASSING test (value = the current value at a chosen path, before or after the operation) vs the operation alone: byte-identical output; EscapeHTML on/off; documents with <, >, & in strings"),
     H("H_Apply", [AP_K1_SMALL], [AP_K1, AP_K2_FLAT], ["apply/end"], "the C01 family: output parses and is well-formed"),
@@ -247,17 +250,18 @@ R["C09"] = {"harnesses": [
       "r1 := B(x); len arbitrary calls; r2 := B(x) with B one of Apply, ApplyIndent, CreateMergePatch, Equal, MergePatch, MergeMergePatches and each intervening call one of 13 kinds (the six again with other leaves, a failing Apply, malformed document / patch / merge patch / Equal operand / CreateMergePatch operand, ApplyWithOptions with EscapeHTML off); leaves symbolic; sync.Pool modelled as a LIFO stack so every pooled decoder/encoder/scanner state left behind by one call is handed to the next"),
     H("H_C09_StaleDecoder", [{}], None, ["C09/stale/end", "C09/stale/object"],
       "one inductive step: a decodeState in an arbitrary stale condition (symbolic offset, opcode, scanner byte count and top-of-stack entry; stale saved error, error context, key list, scanner step function, scanner error) goes through set-useNumber / [checkValid] / init / unmarshal of 6 texts into any, map and slice destinations and must give the outcome of a brand-new state"),
+    H("H_Options_Reuse", [{}], None, ["reuse/end"], "one ApplyOptions value reused across calls that fail or succeed: the options are not written and the next call is unaffected"),
     H("H_SharedPatch", [{}], None, ["shared/end"], "one decoded Patch applied to D1, D2, D1 vs a freshly decoded Patch each time; the Patch's raw messages and a result fed back as the next document are compared byte for byte before/after")],
     "anchors": ["internal/json.UnmarshalValid", "internal/json.MarshalEscaped", "(*github.com/evanphx/json-patch/v5/internal/json.decodeState).init", "internal/json.newScanner", "internal/json.freeScanner", "(github.com/evanphx/json-patch/v5.Operation).value", "v5.newRawMessage"],
     "assumptions": ["sync.Pool = per-pool LIFO stack (the behaviour of the runtime on one goroutine with GC off; the native replay runs with GC disabled)", "concurrency is C10 (not applicable)"],
     "outside_bound": ["histories with more than 2 intervening calls (1 in quick)", "the inductive step covers the decoder state only (encodeState and scanner pool are covered by the histories)"]}
 
 R["C17"] = {"harnesses": [
-    H("H_Codec_RoundTrip", [{"natoms": 1, "atommask": 2047, "pad": 0}, {"natoms": 1, "atommask": 1, "pad": 1}], [{"natoms": 2, "atommask": 2047, "pad": 0}, {"natoms": 1, "atommask": 2047, "pad": 1}], ["codec/object", "codec/roundtrip-end"],
+    H("H_Codec_RoundTrip", [{"natoms": 1, "atommask": 65535, "pad": 0}, {"natoms": 1, "atommask": 1, "pad": 1}], [{"natoms": 2, "atommask": 3391, "pad": 0}, {"natoms": 1, "atommask": 65535, "pad": 1}], ["codec/object", "codec/roundtrip-end"],
       "8 JSON templates (string, number, mixed array, object, nested object/array, escape-alphabet member name, array of objects, 23-digit integer) with symbolic leaves (numbers d.d / -d / dEd, strings of natoms escape-alphabet atoms, one-letter symbolic names), optionally padded with symbolic whitespace bytes at every structural position: UnmarshalValid -> Marshal / MarshalEscaped(false) read back as the same value; Compact / Indent / HTMLEscape keep value and member order; Indent = Compact re-indented; key lists of UnmarshalWithKeys / UnmarshalValidWithKeys in document order"),
-    H("H_Codec_Differential", [{"atommask": 2047}], None, ["codec/differential-end"],
-      "fork vs the standard library's encoding/json, BOTH executed from source: Marshal bytes and Unmarshal results for map[string]any, []any, []string, map[string]string, string and a harness-declared struct type with a renamed field, '-', omitempty, ',string', a nested pointer struct, a map field and an embedded struct; string leaves from the escape alphabet, bool symbolic, ints from {0,7,42}"),
-    H("H_Codec_Stream", [{"atommask": 2047}], None, ["codec/stream-end"],
+    H("H_Codec_Differential", [{"atommask": 65535}], None, ["codec/differential-end"],
+      "fork vs the standard library's encoding/json, BOTH executed from source: Marshal bytes and Unmarshal results for map[string]any, []any, []string, map[string]string, string and a harness-declared struct type with a renamed field, '-', omitempty, ',string', a nested pointer struct, a map field and an embedded struct; string leaves from the escape alphabet, bool symbolic, ints from {0,7,42}; []byte values of 0, 1, 47, 48, 49, 63, 64, 65, 100 bytes (base64 path, scratch-buffer boundary) bare and inside a map"),
+    H("H_Codec_Stream", [{"atommask": 65535}], None, ["codec/stream-end"],
       "Decoder (UseNumber) over a stream of two values separated by a symbolic whitespace byte, More(), and Encoder with SetEscapeHTML on/off: same decoded values as the standard library's Decoder, one value per line on output, values read back unchanged"),
     H("H_C17_Fold", [{"ns": 2, "nt": 2}, {"ns": 1, "nt": 3}, {"ns": 2, "nt": 4}], [{"ns": 2, "nt": 2}, {"ns": 1, "nt": 3}, {"ns": 2, "nt": 4}, {"ns": 3, "nt": 3}, {"ns": 3, "nt": 5}], ["C17/fold/end"],
       "equalFoldRight, asciiEqualFold, simpleLetterEqualFold vs a reference simple-fold comparison, under their documented preconditions: s = ns unconstrained ASCII bytes, t = nt unconstrained bytes (covers K/U+212A and S/U+017F)")],
